@@ -579,11 +579,17 @@ Proof.
   subst j. rewrite Hj.
   destruct (core_spec p (-13) ltac:(lia) Hb) as (HF & ti & Hcore & Hti). cbv zeta in *.
   change (30 + -13) with 17 in *. rewrite Hcore.
-  assert (EF : (p - 10 ^ 6 * 10 ^ 17) / 10 ^ 17 = 8999999).
-  { symmetry. apply (Z.div_unique _ _ _ (p - 9999999 * 10 ^ 17)); lia. }
+  assert (E24 : 10 ^ 24 = 10 ^ 7 * 10 ^ 17) by reflexivity.
+  assert (HA : 0 < 10 ^ 17) by reflexivity.
+  assert (HB : 5 * 10 ^ 35 < 10 ^ 55) by reflexivity.
+  change (42 - -13) with 55 in Hti. rewrite E24 in Hp, N.
+  set (A := 10 ^ 17) in *. set (B := 10 ^ 55) in *. set (C := 5 * 10 ^ 35) in *.
+  change (10 ^ 6) with 1000000 in *. change (10 ^ 7) with 10000000 in *.
+  assert (EF : (p - 1000000 * A) / A = 8999999).
+  { symmetry. apply (Z.div_unique _ _ _ (p - 9999999 * A)); lia. }
   rewrite EF in Hti. destruct Hti as [->|[-> Hbump]]; [f_equal; unfold G; lia|exfalso].
-  change (42 - -13) with 55 in Hbump. assert (1 <= (8999999 + 1) * 10 ^ 17 - (p - 10 ^ 6 * 10 ^ 17)) by lia.
-  assert (10 ^ 55 <= ((8999999 + 1) * 10 ^ 17 - (p - 10 ^ 6 * 10 ^ 17)) * 10 ^ 55) by lia. lia.
+  assert (1 <= (8999999 + 1) * A - (p - 1000000 * A)) by lia.
+  assert (B <= ((8999999 + 1) * A - (p - 1000000 * A)) * B) by nia. lia.
 Qed.
 
 Lemma sqrt_price_to_tick_bucket_min_current s :
